@@ -196,3 +196,355 @@ Proof.
   cbv beta delta [src_impl_reset_model]. obj_red. change (np_zeros1 0%Z) with (np_zeros1 (Z.of_nat 0)). rewrite np_zeros1_nat.
   cbn [res_bind repeat]. unfold reset_st. obj_red. rewrite !mul0_vec, !mul0_mat. reflexivity.
 Qed.
+
+(* ================================================================ programs on well-shaped answers *)
+Lemma prog_eq_ws_of_eq p q : prog_eq p q -> prog_eq_ws p q.
+Proof. induction 1 as [s|dr k1 k2 _ IH]; constructor. intros v _. apply IH. Qed.
+
+Lemma prog_eq_ws_refl p : prog_eq_ws p p.
+Proof. apply prog_eq_ws_of_eq, prog_eq_refl. Qed.
+
+Lemma prog_eq_ws_sym p q : prog_eq_ws p q -> prog_eq_ws q p.
+Proof. induction 1 as [s|dr k1 k2 _ IH]; constructor; assumption. Qed.
+
+Lemma prog_eq_ws_trans p q r : prog_eq_ws p q -> prog_eq_ws q r -> prog_eq_ws p r.
+Proof.
+  intros H; revert r. induction H as [s|dr k1 k2 _ IH]; intros r Hr; [exact Hr|].
+  inversion Hr as [|dr' k2' k3 Hk]; subst. constructor. intros v Hv. apply IH; [exact Hv | apply Hk, Hv].
+Qed.
+
+(* programs equal in this sense answer every well-shaped stream of drawn values alike *)
+Lemma prog_eq_ws_run p q : prog_eq_ws p q -> forall vals, answers_ok p vals -> run_prog p vals = run_prog q vals.
+Proof.
+  induction 1 as [s|dr k1 k2 _ IH]; intros vals Hok; [reflexivity|].
+  cbn [run_prog]. destruct vals as [|v r]; [reflexivity|]. cbn [answers_ok] in Hok. destruct Hok as [Hv Hr].
+  now rewrite (IH v Hv r Hr).
+Qed.
+
+Lemma all_rets_ws_of_all P p : all_rets P p -> all_rets_ws P p.
+Proof. induction p as [s|dr k IH]; cbn [all_rets all_rets_ws]; [auto|]. intros H v _. apply IH, H. Qed.
+
+Lemma all_rets_ws_weaken (P R : st -> Prop) p : (forall s, P s -> R s) -> all_rets_ws P p -> all_rets_ws R p.
+Proof. intros HPR. induction p as [s|dr k IH]; cbn [all_rets_ws]; [auto|]. intros H v Hv. apply IH, H, Hv. Qed.
+
+Lemma all_rets_ws_bind P p f : all_rets_ws (fun s => all_rets_ws P (f s)) p -> all_rets_ws P (bind p f).
+Proof. induction p as [s|dr k IH]; cbn [bind all_rets_ws]; [auto|]. intros H v Hv. apply IH, H, Hv. Qed.
+
+Lemma all_rets_ws_eq P p q : prog_eq_ws p q -> all_rets_ws P q -> all_rets_ws P p.
+Proof. induction 1 as [s|dr k1 k2 _ IH]; cbn [all_rets_ws]; [auto|]. intros H v Hv. apply IH; [exact Hv | apply H, Hv]. Qed.
+
+Lemma all_rets_ws_run P p : all_rets_ws P p -> forall vals s', answers_ok p vals -> snd (run_prog p vals) = Some s' -> P s'.
+Proof.
+  induction p as [s|dr k IH]; cbn [all_rets_ws run_prog answers_ok]; intros H vals s' Hok Hrun.
+  - destruct vals; cbn [snd] in Hrun; [|discriminate]. now injection Hrun as <-.
+  - destruct vals as [|v r]; cbn [snd] in Hrun; [discriminate|]. destruct Hok as [Hv Hr]. exact (IH v (H v Hv) r s' Hr Hrun).
+Qed.
+
+Lemma all_rets_ws_seq_blocks (P : st -> Prop) blocks :
+  (forall b, In b blocks -> forall s v, P s -> val_ok (fst (b s)) v -> P (snd (b s) v)) ->
+  forall s, P s -> all_rets_ws P (seq_blocks blocks s).
+Proof.
+  induction blocks as [|b r IH]; intros Hb s Hs; cbn [seq_blocks all_rets_ws]; [exact Hs|].
+  intros v Hv. apply IH; [intros b' Hb'; apply Hb; now right|]. apply Hb; [now left | exact Hs | exact Hv].
+Qed.
+
+(* bind is a congruence on the states the first program can return *)
+Lemma bind_cong_ws (I : st -> Prop) p p' f f' :
+  prog_eq_ws p p' -> all_rets_ws I p' -> (forall s, I s -> prog_eq_ws (f s) (f' s)) -> prog_eq_ws (bind p f) (bind p' f').
+Proof.
+  intros H HI Hf. induction H as [s|dr k1 k2 _ IH]; cbn [bind all_rets_ws] in *; [apply Hf, HI|].
+  constructor. intros v Hv. apply IH; [exact Hv | apply HI, Hv].
+Qed.
+
+Lemma run_right_cong_ws (J : st -> Prop) step step' bs :
+  (forall b s, In b bs -> J s -> prog_eq_ws (step b s) (step' b s) /\ all_rets_ws J (step' b s)) ->
+  forall s, J s -> prog_eq_ws (run_right step bs s) (run_right step' bs s).
+Proof.
+  induction bs as [|b r IH]; intros H s Hs; cbn [run_right]; [apply prog_eq_ws_refl|].
+  destruct (H b s (or_introl eq_refl) Hs) as [He Hr].
+  apply (bind_cong_ws J); [exact He | exact Hr|]. intros s' Hs'. apply IH; [|exact Hs']. intros b' s'' Hin. apply H. now right.
+Qed.
+
+Lemma all_rets_ws_run_right (J : st -> Prop) step bs :
+  (forall b s, In b bs -> J s -> all_rets_ws J (step b s)) -> forall s, J s -> all_rets_ws J (run_right step bs s).
+Proof.
+  induction bs as [|b r IH]; intros H s Hs; cbn [run_right all_rets_ws]; [exact Hs|].
+  apply all_rets_ws_bind. eapply all_rets_ws_weaken; [|apply H; [now left | exact Hs]].
+  intros s' Hs'. apply IH; [|exact Hs']. intros b' s'' Hin. apply H. now right.
+Qed.
+
+(* ================================================================ every block keeps the shapes (well-shaped answers) *)
+Ltac st_red := cbn [W W0 V2 V1 V0 alpha prec tau tau0 phi2 phi1 phi0 eta2 eta1 eta0 gam Mu
+                    set_W set_W0 set_V2 set_V1 set_V0 set_alpha set_prec set_tau set_tau0 set_phi2 set_phi1 set_phi0
+                    set_eta2 set_eta1 set_eta0 set_gam set_Mu].
+Ltac st_red_in H := cbn [W W0 V2 V1 V0 alpha prec tau tau0 phi2 phi1 phi0 eta2 eta1 eta0 gam Mu
+                    set_W set_W0 set_V2 set_V1 set_V0 set_alpha set_prec set_tau set_tau0 set_phi2 set_phi1 set_phi0
+                    set_eta2 set_eta1 set_eta0 set_gam set_Mu] in H.
+
+Lemma shape2_set_nth (M : list (list Qc)) n D c r : shape2 M n D -> length r = D -> shape2 (set_nth c r M) n D.
+Proof.
+  intros [Hl Hr] Hlen. split; [now rewrite C08Sums.set_nth_length|].
+  intros i Hi. unfold rnth. destruct (Nat.eq_dec c i) as [->|Hne].
+  - rewrite C08Sums.nth_set_nth_eq by lia. exact Hlen.
+  - rewrite C08Sums.nth_set_nth_neq by exact Hne. now apply Hr.
+Qed.
+
+Lemma nth_repeat_in {A} (y d : A) : forall n i, (i < n)%nat -> nth i (repeat y n) d = y.
+Proof. induction n as [|n IH]; intros [|i] H; cbn [repeat nth]; try lia; [reflexivity | apply IH; lia]. Qed.
+
+Lemma shape2_repeat (x : Qc) n D : shape2 (repeat (repeat x D) n) n D.
+Proof.
+  split; [apply repeat_length|]. intros i Hi. unfold rnth. rewrite nth_repeat_in by exact Hi. apply repeat_length.
+Qed.
+
+(* after __init__ every shape hypothesis of the block links holds, and the cache is empty *)
+Theorem init_shapes g : shapes g (init_st g) /\ Mu (init_st g) = [].
+Proof. unfold shapes, init_st; st_red. repeat split; try apply shape2_repeat; apply repeat_length. Qed.
+
+(* ... and reset_model keeps them *)
+Theorem reset_shapes g s : shapes g s -> shapes g (reset_st s) /\ Mu (reset_st s) = [].
+Proof.
+  unfold shapes, reset_st; st_red. intros (HW & HW0 & HV2 & HV1 & HV0 & H).
+  pose proof (shape2_map (fun _ => 0) _ _ _ HW) as HW'. pose proof (shape2_map (fun _ => 0) _ _ _ HV2) as HV2'.
+  pose proof (shape2_map (fun _ => 0) _ _ _ HV1) as HV1'. split; [|reflexivity]. rewrite !map_length. tauto.
+Qed.
+
+Section Keep.
+Variable g : cfg.
+Variable d : data.
+Variable orc : oracle.
+
+Ltac keep := unfold in_sweep, shapes in *; st_red;
+  rewrite ?C08Sums.set_nth_length, ?C08Sums.scatter_add_length, ?map_length; tauto.
+
+Lemma keep_block_W0 s c v : in_sweep g d s -> in_sweep g d (snd (block_W0 d s c) v).
+Proof. intros Hs. unfold block_W0. destruct (positions _ _); cbn [snd]; keep. Qed.
+
+Lemma keep_block_V0 s m v : in_sweep g d s -> in_sweep g d (snd (block_V0 d s m) v).
+Proof. intros Hs. unfold block_V0. destruct (_ ++ _); cbn [snd]; keep. Qed.
+
+Lemma keep_block_W s c v : in_sweep g d s -> val_ok (fst (block_W g d s c)) v -> in_sweep g d (snd (block_W g d s c) v).
+Proof.
+  intros Hs Hv. unfold block_W in *. destruct (positions _ _) as [|i0 cidx]; cbn [fst snd] in *.
+  - destruct Hv as (l & -> & Hl). rewrite map_length in Hl. cbn [val_v].
+    assert (HW : shape2 (set_nth c l (W s)) (c_ncl g) (c_D g)) by (apply shape2_set_nth; unfold in_sweep, shapes in Hs; [tauto | lia]).
+    unfold in_sweep, shapes in *; st_red; tauto.
+  - destruct Hv as [->|(l & -> & Hl)]; [exact Hs|]. unfold gramQ in Hl. rewrite C08Sums.tab_length in Hl.
+    assert (HW : shape2 (set_nth c l (W s)) (c_ncl g) (c_D g)) by (apply shape2_set_nth; unfold in_sweep, shapes in Hs; [tauto | lia]).
+    unfold in_sweep, shapes in *; st_red. rewrite C08Sums.scatter_add_length. tauto.
+Qed.
+
+Lemma keep_block_V2 s m v : in_sweep g d s -> val_ok (fst (block_V2 g d s m)) v -> in_sweep g d (snd (block_V2 g d s m) v).
+Proof.
+  intros Hs Hv. unfold block_V2, block_V in *. destruct (_ ++ _) as [|i0 idx]; cbn [fst snd] in *.
+  - destruct Hv as (l & -> & Hl). unfold lam_V2 in Hl. rewrite map_length, C08Sums.tab_length in Hl. cbn [val_v].
+    assert (HW : shape2 (set_nth m l (V2 s)) (c_ndd g) (c_D g)) by (apply shape2_set_nth; unfold in_sweep, shapes in Hs; [tauto | lia]).
+    unfold in_sweep, shapes in *; st_red; tauto.
+  - destruct Hv as [->|(l & -> & Hl)]; [exact Hs|]. unfold gramQ in Hl. rewrite C08Sums.tab_length in Hl.
+    assert (HW : shape2 (set_nth m l (V2 s)) (c_ndd g) (c_D g)) by (apply shape2_set_nth; unfold in_sweep, shapes in Hs; [tauto | lia]).
+    unfold in_sweep, shapes in *; st_red. rewrite C08Sums.scatter_add_length. tauto.
+Qed.
+
+Lemma keep_block_V1 s m v : in_sweep g d s -> val_ok (fst (block_V1 g d s m)) v -> in_sweep g d (snd (block_V1 g d s m) v).
+Proof.
+  intros Hs Hv. unfold block_V1, block_V in *. destruct (_ ++ _) as [|i0 idx]; cbn [fst snd] in *.
+  - destruct Hv as (l & -> & Hl). unfold lam_V1 in Hl. rewrite map_length, C08Sums.tab_length in Hl. cbn [val_v].
+    assert (HW : shape2 (set_nth m l (V1 s)) (c_ndd g) (c_D g)) by (apply shape2_set_nth; unfold in_sweep, shapes in Hs; [tauto | lia]).
+    unfold in_sweep, shapes in *; st_red; tauto.
+  - destruct Hv as [->|(l & -> & Hl)]; [exact Hs|]. unfold gramQ in Hl. rewrite C08Sums.tab_length in Hl.
+    assert (HW : shape2 (set_nth m l (V1 s)) (c_ndd g) (c_D g)) by (apply shape2_set_nth; unfold in_sweep, shapes in Hs; [tauto | lia]).
+    unfold in_sweep, shapes in *; st_red. rewrite C08Sums.scatter_add_length. tauto.
+Qed.
+
+Lemma keep_prog_gam ds : forall s, in_sweep g d s -> all_rets_ws (in_sweep g d) (prog_gam g d orc ds s).
+Proof.
+  induction ds as [|dd r IH]; intros s Hs; cbn [prog_gam all_rets_ws].
+  - unfold in_sweep, shapes in *; st_red. rewrite map_length, cumprod_length. tauto.
+  - intros v _. apply IH. keep.
+Qed.
+
+Lemma keep_reconstruct clip s : sweep_ready g d s -> in_sweep g d (reconstruct_Mu g d clip s).
+Proof.
+  intros [Hs HMu]. unfold reconstruct_Mu. destruct (nobs d) as [|n] eqn:En.
+  - split; [exact Hs | lia].
+  - unfold in_sweep, shapes in *; st_red. destruct clip; rewrite ?map_length; unfold reconstruct; rewrite C08Sums.tab_length; tauto.
+Qed.
+
+Lemma in_sweep_ready s : in_sweep g d s -> sweep_ready g d s.
+Proof. intros [Hs HMu]. split; [exact Hs | lia]. Qed.
+
+(* every step function keeps the shapes and the length of the cache, for well-shaped answers *)
+Theorem step_keeps b s : in_sweep g d s -> all_rets_ws (in_sweep g d) (step_prog g d orc b s).
+Proof.
+  intros Hs. destruct b; cbn [step_prog].
+  - cbn [all_rets_ws]. apply keep_reconstruct, in_sweep_ready, Hs.
+  - cbn [all_rets_ws]. unfold alpha_step. destruct (nobs d) eqn:En; [exact Hs|]. keep.
+  - apply all_rets_ws_seq_blocks; [|exact Hs]. intros b Hb s0 v Hs0 _. apply in_map_iff in Hb as (c & <- & _). now apply keep_block_W0.
+  - apply all_rets_ws_seq_blocks; [|exact Hs]. intros b Hb s0 v Hs0 _. apply in_map_iff in Hb as (c & <- & _). now apply keep_block_V0.
+  - apply all_rets_ws_seq_blocks; [|exact Hs]. intros b Hb s0 v Hs0 Hv. apply in_map_iff in Hb as (c & <- & _). now apply keep_block_W.
+  - apply all_rets_ws_seq_blocks; [|exact Hs]. intros b Hb s0 v Hs0 Hv. apply in_map_iff in Hb as (c & <- & _). now apply keep_block_V2.
+  - apply all_rets_ws_seq_blocks; [|exact Hs]. intros b Hb s0 v Hs0 Hv. apply in_map_iff in Hb as (c & <- & _). now apply keep_block_V1.
+  - unfold prog_prec_W0. cbn [all_rets_ws]. intros v _. keep.
+  - unfold prog_prec_V0. cbn [all_rets_ws]. intros v1 _ v2 _ v3 _ v4 _. unfold in_sweep, shapes in *; st_red. rewrite C08Sums.tab_length. tauto.
+  - unfold prog_prec_obs. destruct (nobs d) eqn:En; cbn [all_rets_ws]; intros v _; keep.
+  - unfold prog_prec_V2, prog_prec_Vk. cbn [all_rets_ws]. intros v1 _ v2 _ v3 _ v4 _.
+    pose proof (tab2_shape (c_ndd g) (c_D g) (fun m k => clipC orc (n_occ d m) (vnth (rnth (val_m v2) m) k))) as Hsh. unfold tab2 in Hsh.
+    unfold in_sweep, shapes in *; st_red. rewrite C08Sums.tab_length. tauto.
+  - unfold prog_prec_V1, prog_prec_Vk. cbn [all_rets_ws]. intros v1 _ v2 _ v3 _ v4 _.
+    pose proof (tab2_shape (c_ndd g) (c_D g) (fun m k => clipC orc (n_occ d m) (vnth (rnth (val_m v2) m) k))) as Hsh. unfold tab2 in Hsh.
+    unfold in_sweep, shapes in *; st_red. rewrite C08Sums.tab_length. tauto.
+  - unfold prog_prec_W. now apply keep_prog_gam.
+Qed.
+End Keep.
+
+(* ================================================================ the closed whole-sweep statement *)
+(* what mcmc_step's thirteen calls run: the translated methods, the option flags as the object holds them *)
+Definition src_run (fake_intercept local_shrinkage mult_gamma_proc : bool) (g : cfg) (d : data) (orc : oracle)
+    (b : blk) (s : st) : gprog st :=
+  match b with
+  | BReconstruct => src_reconstruct_Mu g d false s
+  | BAlpha => src_alpha_step g d fake_intercept s
+  | BW0 => src_W0_step g d s
+  | BV0 => src_V0_step g d s
+  | BW => src_W_step g d s
+  | BV2 => src_V2_step g d s
+  | BV1 => src_V1_step g d s
+  | BPrecW0 => src_prec_W0_step g d orc s
+  | BPrecV0 => src_prec_V0_step g d orc local_shrinkage s
+  | BPrecObs => src_prec_obs_step g d orc s
+  | BPrecV2 => src_prec_V2_step g d orc local_shrinkage s
+  | BPrecV1 => src_prec_V1_step g d orc local_shrinkage s
+  | BPrecW => src_prec_W_step g d orc mult_gamma_proc s
+  end.
+
+Lemma shape2_len M n D : shape2 M n D -> length M = n.
+Proof. now intros [H _]. Qed.
+
+(* every block link of the first part, its shape hypotheses discharged by [in_sweep] *)
+Theorem src_block_is_model g d orc b s : data_ok d -> (0 < c_D g)%nat -> shapes g s -> (b = BReconstruct \/ length (Mu s) = nobs d) ->
+  prog_eq (to_prog (src_run true true true g d orc b s)) (step_prog g d orc b s).
+Proof.
+  intros (Hd1 & Hd2 & Hd3) HD (HW & HW0 & HV2 & HV1 & HV0 & Htau & Hp2 & Hp1 & Hp0 & He2 & He1 & Hgam) HMu.
+  destruct b; cbn [src_run].
+  - rewrite src_reconstruct_Mu_is_model by assumption. apply prog_eq_refl.
+  - rewrite src_alpha_step_is_model. apply prog_eq_refl.
+  - now apply src_W0_step_is_model.
+  - now apply src_V0_step_is_model.
+  - apply src_W_step_is_model; [eapply shape2_len; eassumption | assumption..].
+  - apply src_V2_step_is_model; [eapply shape2_len; eassumption | assumption..].
+  - apply src_V1_step_is_model; [eapply shape2_len; eassumption | assumption..].
+  - apply src_prec_W0_step_is_model.
+  - now apply src_prec_V0_step_is_model.
+  - apply src_prec_obs_step_is_model. destruct HMu as [HMu|HMu]; [discriminate | exact HMu].
+  - now apply src_prec_V2_step_is_model.
+  - now apply src_prec_V1_step_is_model.
+  - now apply src_prec_W_step_is_model.
+Qed.
+
+Definition step_rest : list blk := [BAlpha; BW0; BV0; BW; BV2; BV1; BPrecW0; BPrecV0; BPrecObs; BPrecV2; BPrecV1; BPrecW].
+Lemma step_order_split : step_order = BReconstruct :: step_rest.
+Proof. reflexivity. Qed.
+
+Lemma mcmc_step_right g d orc s : prog_eq (mcmc_step g d orc s) (run_right (step_prog g d orc) step_order s).
+Proof. apply (run_blocks_with_right (step_prog g d orc)). Qed.
+
+(* a sweep started with well-shaped arrays and a cache no longer than the data ends with well-shaped arrays and a cache of
+   the data's length, for well-shaped answers *)
+Theorem sweep_keeps g d orc s : sweep_ready g d s -> all_rets_ws (in_sweep g d) (mcmc_step g d orc s).
+Proof.
+  intros Hs. eapply all_rets_ws_eq; [apply prog_eq_ws_of_eq, mcmc_step_right|].
+  rewrite step_order_split. cbn [run_right step_prog bind].
+  apply all_rets_ws_run_right; [|now apply keep_reconstruct]. intros b s' _ Hs'. now apply step_keeps.
+Qed.
+
+(* the translated mcmc_step running the translated block methods is the model's sweep, on well-shaped answers *)
+Theorem src_sweep_is_model g d orc n s : data_ok d -> (0 < c_D g)%nat -> sweep_ready g d s ->
+  prog_eq_ws (to_prog (src_mcmc_step (src_run true true true g d orc) n s)) (mcmc_step g d orc s).
+Proof.
+  intros Hd HD [Hs HMu].
+  eapply prog_eq_ws_trans; [apply prog_eq_ws_of_eq, src_mcmc_step_order|].
+  eapply prog_eq_ws_trans; [apply prog_eq_ws_of_eq, run_blocks_with_right|].
+  eapply prog_eq_ws_trans; [|apply prog_eq_ws_sym, prog_eq_ws_of_eq, mcmc_step_right].
+  rewrite step_order_split. cbn [run_right].
+  apply (bind_cong_ws (in_sweep g d)).
+  - apply prog_eq_ws_of_eq, src_block_is_model; auto.
+  - cbn [step_prog all_rets_ws]. apply keep_reconstruct. now split.
+  - intros s' Hs'. apply (run_right_cong_ws (in_sweep g d)); [|exact Hs']. intros b s'' _ [Hs'' HMu'']. split.
+    + apply prog_eq_ws_of_eq, src_block_is_model; auto.
+    + apply step_keeps. now split.
+Qed.
+
+(* ---- reachable states *)
+Lemma data_ok_empty : data_ok data_empty.
+Proof. repeat split. Qed.
+
+Lemma data_ok_snoc d y cl dd1 dd2 : data_ok d -> data_ok (data_snoc d y cl dd1 dd2).
+Proof.
+  unfold data_ok, nobs, data_snoc. cbn [d_y d_cl d_dd1 d_dd2]. rewrite !app_length. cbn [length]. lia.
+Qed.
+
+Lemma nobs_snoc d y cl dd1 dd2 : nobs (data_snoc d y cl dd1 dd2) = S (nobs d).
+Proof. unfold nobs, data_snoc. cbn [d_y]. rewrite app_length. cbn [length]. lia. Qed.
+
+Theorem reach_ready g orc d s : reach g orc d s -> sweep_ready g d s /\ data_ok d.
+Proof.
+  induction 1 as [|d s y cl dd1 dd2 _ [[Hs HMu] Hd]|d s vals s' _ [Hs Hd] Hok Hrun|d s _ [[Hs HMu] Hd]].
+  - destruct (init_shapes g) as [Hs HMu]. split; [split; [exact Hs | rewrite HMu; cbn [length]; lia] | apply data_ok_empty].
+  - split; [split; [exact Hs | rewrite nobs_snoc; lia] | now apply data_ok_snoc].
+  - split; [|exact Hd]. apply in_sweep_ready. exact (all_rets_ws_run _ _ (sweep_keeps g d orc s Hs) vals s' Hok Hrun).
+  - destruct (reset_shapes g s Hs) as [Hs' HMu']. split; [split; [exact Hs' | rewrite HMu'; cbn [length]; lia] | exact Hd].
+Qed.
+
+Theorem src_sweep_reachable g orc d s n : reach g orc d s -> (0 < c_D g)%nat ->
+  prog_eq_ws (to_prog (src_mcmc_step (src_run true true true g d orc) n s)) (mcmc_step g d orc s).
+Proof. intros H HD. destruct (reach_ready g orc d s H) as [Hs Hd]. now apply src_sweep_is_model. Qed.
+
+(* ---- the composite from the translated constructor and translated _update calls *)
+Fixpoint src_updates (o : pyobs) (rows : list (Qc * Z * Z * Z)) : result pyobs :=
+  match rows with
+  | [] => Ok o
+  | (y, cl, dd1, dd2) :: r => dor o' <- src_update o y cl dd1 dd2; src_updates o' r
+  end.
+Fixpoint data_rows (d : data) (rows : list (Qc * Z * Z * Z)) : data :=
+  match rows with
+  | [] => d
+  | (y, cl, dd1, dd2) :: r => data_rows (data_snoc d y cl dd1 dd2) r
+  end.
+
+Lemma src_updates_rep rows : forall o d, obs_rep o d -> data_ok d ->
+  exists o', src_updates o rows = Ok o' /\ obs_rep o' (data_rows d rows) /\ data_ok (data_rows d rows).
+Proof.
+  induction rows as [|[[[y cl] dd1] dd2] r IH]; intros o d Ho Hd; cbn [src_updates data_rows]; [now exists o|].
+  destruct Hd as (H1 & H2 & H3). destruct (src_update_is_model o d y cl dd1 dd2 Ho H1 H2 H3) as (o1 & -> & Ho1).
+  cbn [res_bind]. apply IH; [exact Ho1 | apply data_ok_snoc; now repeat split].
+Qed.
+
+Lemma reach_rows g orc rows : forall d s, reach g orc d s -> reach g orc (data_rows d rows) s.
+Proof.
+  induction rows as [|[[[y cl] dd1] dd2] r IH]; intros d s H; cbn [data_rows]; [exact H|]. apply IH. now constructor.
+Qed.
+
+Lemma cfg_of_init D ndd ncl ic fi ie mgp ls a0 b0 mn mx :
+  cfg_of (init_obj D ndd ncl ic fi ie mgp ls a0 b0 mn mx)
+  = {| c_D := D; c_ndd := ndd; c_ncl := ncl; c_a0 := a0; c_b0 := b0; c_minMu := mn; c_maxMu := mx |}.
+Proof. unfold cfg_of, init_obj. cbn [pi_D pi_ndd pi_ncl pi_a0 pi_b0 pi_minMu pi_maxMu]. now rewrite !Nat2Z.id. Qed.
+
+(* the object built by the translated __init__ (default options), fed by any number of translated _update calls: the translated
+   mcmc_step is the model's sweep on the data the store then represents, for every well-shaped answer stream *)
+Theorem src_sweep_from_init self0 D ndd ncl ic ie a0 b0 mn mx rows orc n : (0 < D)%nat ->
+  exists o o', src_impl_init self0 (Z.of_nat D) (Z.of_nat ndd) (Z.of_nat ncl) ic true ie true true a0 b0 mn mx = Ok o /\
+    src_updates (pi_obs o) rows = Ok o' /\
+    exists d, obs_rep o' d /\ reach (cfg_of o) orc d (pi_st o) /\
+      prog_eq_ws (to_prog (src_mcmc_step (src_run (pi_fake_intercept o) (pi_local_shrinkage o) (pi_mult_gamma_proc o) (cfg_of o) d orc) n (pi_st o)))
+                 (mcmc_step (cfg_of o) d orc (pi_st o)).
+Proof.
+  intros HD. eexists. rewrite src_impl_init_is_model.
+  destruct (src_updates_rep rows obs_empty data_empty obs_rep_empty data_ok_empty) as (o' & Hu & Hrep & Hd).
+  exists o'. split; [reflexivity|]. split; [exact Hu|]. exists (data_rows data_empty rows). split; [exact Hrep|].
+  rewrite cfg_of_init. cbn [pi_st pi_fake_intercept pi_local_shrinkage pi_mult_gamma_proc init_obj].
+  assert (Hr : reach {| c_D := D; c_ndd := ndd; c_ncl := ncl; c_a0 := a0; c_b0 := b0; c_minMu := mn; c_maxMu := mx |} orc
+                 (data_rows data_empty rows)
+                 (init_st {| c_D := D; c_ndd := ndd; c_ncl := ncl; c_a0 := a0; c_b0 := b0; c_minMu := mn; c_maxMu := mx |}))
+    by (apply reach_rows; constructor).
+  split; [exact Hr|]. apply src_sweep_reachable; [exact Hr | exact HD].
+Qed.
